@@ -419,10 +419,14 @@ def r163(ctx):
         b = p.fn(f"{pref}::{m}")
         fv = fnview(ctx, b, policy=False).named()
         calls = [(bi, c) for bi, c in b.calls() if c.callee and c.callee.name == f"{ct}::{helper}"]
-        ok = len(calls) == 1 and "commit_log" in render(fv.expr(calls[0][1].args[1])) and render(strip_ref(fv.expr(calls[0][1].args[2]))) == "key"
-        ctx.ob("R16.3", ok, f"cloud/{m}/uses-log", f"cloud {m} does not consult the commit log through {helper}", where=f"{b.file}:{b.line}",
-               sample=f"{helper}(commit_log, key)")
-        hb = p.fn(f"{ct}::{helper}")
+        inlined = not calls and not any(d.id in p.bodies for d in p.by_name.get(f"{ct}::{helper}", []))
+        if inlined:
+            hb = b      # the helper was inlined by hand: the log-first obligation below is asked of the method itself
+        else:
+            ok = len(calls) == 1 and "commit_log" in render(fv.expr(calls[0][1].args[1])) and render(strip_ref(fv.expr(calls[0][1].args[2]))) == "key"
+            ctx.ob("R16.3", ok, f"cloud/{m}/uses-log", f"cloud {m} does not consult the commit log through {helper}", where=f"{b.file}:{b.line}",
+                   sample=f"{helper}(commit_log, key)")
+            hb = p.fn(f"{ct}::{helper}")
         hv = fnview(ctx, hb, policy=False)
         lg = [(bi, c) for bi, c in hb.calls() if c.callee and c.callee.name.endswith("BTreeMap::<K, V, A>::get")]
         loc = [(bi, c) for bi, c in hb.calls() if c.decl is not None and c.decl.name == f"{VP}KVVStore::{localm}"]
